@@ -31,6 +31,8 @@ func runC05(c *Ctx) {
 	c.ruleCloseEffectsNeedWin("R05.7")
 	// a batch's Wait returns only if every refused item is counted off
 	c.ruleSubmitPaths("R05.8", submitChecks{reject: true})
+	// purged jobs' waiters are released: Purge closes every job it removes
+	c.rulePurge("R05.9")
 }
 
 func (c *Ctx) ruleCompletionOrder(rule string) {
